@@ -180,6 +180,8 @@ THEOREMS = [("Kopf.Props.C15", "Kopf.C15." + n) for n in (
     "stealth_blocked_witness", "stealth_touch_witness", "stealth_purge_by_name_witness", "carried_fulfilled_regression",
     "stealth_leftover_regression",
     "cycle_watch_exact", "cycle_watch_iff", "cycle_spawn_exact", "cycle_spawn_iff", "cycle_handle_exact",
+    "Essence.declared_field_seen", "Essence.seen_independent_of_others", "Essence.under_declared_field_seen",
+    "Essence.drop_children_harmless", "Essence.textual_skip_witness",
 )] + [("Kopf.Props.C15_Invoked", "Kopf.C15." + n) for n in (
     "invoked_sound", "invoked_doc_partial", "unmatched_never_invoked", "matching_due_invoked", "matching_invoked_fresh",
     "subhandler_matching_invoked_fresh", "cycle_handle_sound", "cycle_handle_complete",
@@ -209,7 +211,13 @@ RULE = ("handler declaration = labels x annotations criterion in {none, 'x', 'y'
         "value= in {none, ABSENT, PRESENT, 'x', callbacks} x every cause shape detect_changing_cause builds over the field "
         "alphabet (creation = no old state; update old != new, also first-seen; deletion with no / equal / differing old "
         "state; resuming) through get_handlers, whole process_resource_event cycles (without / with a carried remaining_patch that "
-        "still changes the object / that is fulfilled already; preset resumed_handlers, temporarily failing handlers, fields under "
+        "still changes the object / that is fulfilled already; several handlers' fields TOGETHER -- related names of one stanza: "
+        "textual prefixes that are not parents (status.s/.ss/.sx, metadata.name/.namespace, spec.f/.ff), parents and children "
+        "(status, status.s, status.s.t; metadata.labels[.lk]; spec[.f]), repeats -- as the complete grid of ordered pairs "
+        "(creation with PRESENT, then every field changes: update handlers; ABSENT: object untouched) and 2-4-event sequences "
+        "under 2-5 handlers of every kind (+ on.event / timer handlers: one essence for all three registries) whose "
+        "last-handled state is what kopf itself stored in the sequence's earlier cycles, through the real "
+        "settings.persistence.diffbase_storage; preset resumed_handlers, temporarily failing handlers, fields under "
         "spec/metadata/status; 35% with progress records on the object: of 1-3 registered handlers, of their sub-handlers named "
         "in `subrefs` or orphaned, of somebody else, in annotations / status.kopf.progress / both; 20% with a consistency "
         "deadline that is over; 1/3 with a configured settings.persistence.finalizer, kopf's default name then among the "
@@ -255,6 +263,10 @@ TRUSTED = ["pyextract atom vocabularies for registries.match/prematch/_matches_*
            "depends on kwargs are outside the model",
            "C02's theorems invoked_selected_awake and due_invoked_all_at_once (Kopf.Props.C02) are used as stated there by "
            "Kopf.Props.C15_Invoked (while C02's files are being edited that one module may fail to build)",
+           "Essence.* (which fields a changing handler's criteria can see) model DiffBaseStorage.build at the level of WHICH "
+           "PATHS are copied from the object (every copy is a deep copy of the same object at a path); build() itself is not "
+           "translated: it is tied by D only -- the cycle oracle compares, per handler with a field, the values kopf's cause "
+           "gives the criteria with the object's own (current: the event's object; old: the object kopf stored the state for)",
            "Obj.lingering / Obj.handlerDelays / Obj.carried / Obj.carriedOps / Obj.resumed / Obj.records are inputs of the cycle "
            "model observed on the real run (outputs of match_daemons/stop_daemons, of the handlers, of earlier cycles; the "
            "records on the object are read with kopf's own ProgressStorage.fetch, which also decodes the patch): daemon life "
@@ -3018,7 +3030,8 @@ def carried_mode(v: Any) -> str | None:
 
 
 STEP_KEYS = ("label", "annotation", "field", "stored", "event", "own_finalizer", "foreign_finalizer", "marked", "carried",
-             "records", "timed")
+             "records", "timed", "status", "namespace", "spec_extra")
+LHC_KEY = "kopf.zalando.org/last-handled-configuration"      # docs/configuration.rst: the default place of the last-handled state
 TOUCH_ONLY = {"metadata": {"annotations": {"kopf.zalando.org/touch-dummy": None}}}
 DEFAULT_FINALIZER = "kopf.zalando.org/KopfFinalizerMarker"      # docs/configuration.rst: the default of settings.persistence.finalizer
 CONFIGURED_FINALIZER = "example.com/cfg-finalizer"
@@ -3289,6 +3302,105 @@ def random_leftover_sequence(rng: random.Random) -> dict:
     return {"handlers": hs, "steps": steps, "real_daemons": False, "stopped": []}
 
 
+# ---- several handlers' fields TOGETHER: what the criteria of one handler see must not depend on the other handlers ----
+# The state the criteria of state-changing handlers are decided on is the object's essence; everything outside
+# spec/labels/annotations is in it only because SOME handler of the resource names it (`field=`), and all the
+# handlers' fields go into one essence together. Related names: one dotted name a textual prefix of another without
+# being its parent (status.s / status.ss / status.sx, metadata.name / metadata.namespace, spec.f / spec.ff), parents and
+# children (status / status.s / status.s.t, metadata.labels / metadata.labels.lk, spec / spec.f), the same field twice.
+REL_FIELDS = {
+    "status": [["status", "s"], ["status", "ss"], ["status", "s", "t"], ["status"], ["status", "sx"]],
+    "metadata": [["metadata", "name"], ["metadata", "namespace"], ["metadata", "labels"], ["metadata", "labels", LK], ["metadata", "uid"]],
+    "spec": [["spec"], ["spec", "f"], ["spec", "ff"]],
+}
+REL_S_VALUES = [None, "x", "x", "y", {"t": "x"}, {"t": "y"}, ["x"]]
+REL_SS_VALUES = [None, "x", "x", "y", ["x"], {"t": "x"}]
+
+
+def _rel_handler(rng: random.Random, n_: int, cls: str, kind: str, f: list, *, crit: Any = MISSING) -> tuple:
+    k = DECL_KIND.get(kind, dict(r=None, fnc=False, i=False))
+    v = o = n = None
+    if crit is not MISSING:
+        v = crit
+    elif kind in ("update", "field") and rng.random() < 0.35:
+        o, n = rng.choice([None, "P", "A", {"v": "x"}]), rng.choice([None, "P", "A", {"v": "x"}, {"v": "y"}])
+    else:
+        v = rng.choice([None, "P", "P", "A", {"v": "x"}, {"cb": "is_x"}])
+    return (hspec(cls, fn=n_ % 6, id=f"h{n_}", f=f, v=v, o=o, n=n, fnc=k["fnc"], r=k["r"], i=k["i"] or None,
+                  rf=True if cls == "spawning" else (False if kind == "delete" else None),
+                  d=rng.choice([None, True]) if kind == "resume" else None), kind)
+
+
+def _rel_step(rng: random.Random, prev: dict | None, k: int, first_event: Any) -> dict:
+    def draw(key: str, pool: list) -> Any:
+        return prev[key] if prev is not None and rng.random() < 0.5 else rng.choice(pool)
+    status = {}
+    for key, pool in (("s", REL_S_VALUES), ("ss", REL_SS_VALUES), ("sx", [None, None, "x", "y"])):
+        val = (prev["status"].get(key) if prev is not None and rng.random() < 0.5 else rng.choice(pool))
+        if val is not None:
+            status[key] = val
+    ff = draw("_ff", VALS)
+    return {"label": draw("label", VALS), "annotation": None, "field": draw("field", VALS), "_ff": ff,
+            "spec_extra": {} if ff is None else {"ff": ff}, "status": status, "namespace": draw("namespace", ["ns", "ns", "x", "y"]),
+            "stored": "follow", "event": first_event if k == 0 else "MODIFIED", "own_finalizer": "follow", "foreign_finalizer": False,
+            "marked": False, "carried": False, "records": "follow", "timed": False, "wait": 0}
+
+
+def related_fields_scenarios() -> list[dict]:
+    """both tiers, complete: every ordered pair of related field names of one stanza (the same name twice included) as
+    two handlers, once as `@kopf.on.create(field=, value=PRESENT)` + `@kopf.on.update(field=)` pairs on an object that
+    HAS every field (first event: both creation handlers; then every field changes: both update handlers), once as
+    `value=ABSENT` creation handlers on the same object (matched by nobody: left untouched)"""
+    out = []
+    full = {"label": "x", "annotation": None, "field": "x", "spec_extra": {"ff": "x"}, "status": {"s": {"t": "x"}, "ss": "x", "sx": "x"},
+            "namespace": "ns", "stored": "follow", "own_finalizer": "follow", "foreign_finalizer": False, "marked": False,
+            "carried": False, "records": "follow", "timed": False, "wait": 0}
+    moved = dict(full, label="y", field="y", spec_extra={"ff": "y"}, status={"s": {"t": "y"}, "ss": "y", "sx": "y"}, namespace="y")
+    rng = random.Random(0)            # (only to satisfy the builder's signature: every criterion is given)
+    for group, fields in REL_FIELDS.items():
+        for f1 in fields:
+            for f2 in fields:
+                hs = []
+                for f in (f1, f2):
+                    hs.append(_rel_handler(rng, len(hs), "changing", "create", f, crit="P"))
+                    hs.append(_rel_handler(rng, len(hs), "changing", "update", f, crit=None))
+                out.append({"handlers": hs, "steps": [dict(full, event="ADDED"), dict(moved, event="MODIFIED")],
+                            "real_daemons": False, "stopped": []})
+                if f1 != f2 and "uid" not in (f1[-1], f2[-1]):
+                    hs = [_rel_handler(rng, n_, "changing", "create", f, crit="A") for n_, f in enumerate((f1, f2))]
+                    out.append({"handlers": hs, "steps": [dict(full, event="ADDED")], "real_daemons": False, "stopped": []})
+    return out
+
+
+def random_related_fields_sequence(rng: random.Random) -> dict:
+    """2-4 events for one object under 2-5 handlers (state-changing ones of every kind; sometimes an on.event handler or a
+    timer as well: their fields go into the same essence) whose fields are drawn -- with repeats -- from one stanza's
+    related names (30%: one more from another stanza); the values under the fields come, go and change from event to
+    event; the last-handled state of every event is what kopf itself stored before (`stored: follow`)"""
+    group = rng.choice(["status"] * 5 + ["metadata"] * 3 + ["spec"] * 2)
+    pool = REL_FIELDS[group]
+    hs: list = []
+    for _ in range(rng.choice([2, 2, 3, 3, 4])):
+        f = rng.choice(pool)
+        if rng.random() < 0.15:
+            f = rng.choice(REL_FIELDS[rng.choice(list(REL_FIELDS))])
+        hs.append(_rel_handler(rng, len(hs), "changing", rng.choice(["create", "update", "update", "field", "resume", "delete"]), f))
+    if rng.random() < 0.3:
+        hs.append(_rel_handler(rng, len(hs), "watching", "event", rng.choice(pool)))
+    if rng.random() < 0.2:
+        hs.append(_rel_handler(rng, len(hs), "spawning", "timer", rng.choice(pool)))
+    rng.shuffle(hs)
+    hs = [(dict(h, id=f"h{n_}", fn=n_ % 6, func=n_ % 6), kind) for n_, (h, kind) in enumerate(hs)]
+    first = rng.choice(["ADDED", "ADDED", None])
+    steps: list = []
+    for k in range(rng.choice([2, 3, 3, 4])):
+        steps.append(_rel_step(rng, steps[-1] if steps else None, k, first))
+    if rng.random() < 0.2:
+        steps[-1]["marked"] = True
+    return {"handlers": hs, "steps": steps, "real_daemons": False, "stopped": []}
+
+
+
 async def _dmn_ignores(**_: Any) -> None:
     import asyncio
     await asyncio.sleep(0.06)           # a daemon that does not look at `stopped` for a while
@@ -3325,7 +3437,7 @@ async def run_cycle_case(env: Env, rec: Rec, case: dict, driver_reqs: list, pend
     memories = env.inventory.ResourceMemories()
     memobase = env.ephemera.Memo()
     own_fin = False
-    case = dict(case, _kopf_ann={})      # (a copy: the progress annotations kopf writes, for `records: follow`)
+    case = dict(case, _kopf_ann={}, _kopf_lhc=None)      # (a copy: the progress annotations kopf writes, for `records: follow`)
     orig = (P._detect_causes, P.process_resource_causes, P.process_changing_cause, A.patch_and_check,
             D.spawn_daemons, D.match_daemons, D.pause_daemons, D.stop_daemons)
     try:
@@ -3350,13 +3462,17 @@ async def _one_cycle(env: Env, rec: Rec, case: dict, k: int, step: dict, own_fin
                      driver_reqs: list, pending: list) -> bool:
     import asyncio
     P, A, D = env.processing, env.application, env.daemons
-    meta: dict[str, Any] = {"name": "obj", "namespace": "ns", "uid": "u1", "resourceVersion": str(7 + k)}
+    meta: dict[str, Any] = {"name": "obj", "namespace": step.get("namespace") or "ns", "uid": "u1", "resourceVersion": str(7 + k)}
     if step["label"] is not None:
         meta["labels"] = {LK: step["label"]}
     ann = {}
     if step["annotation"] is not None:
         ann[AK] = step["annotation"]
-    if step["stored"] not in (NOOLD, "SAME"):
+    followed_old: Any = None
+    if step["stored"] == "follow":     # the last-handled state is what KOPF ITSELF stored in an earlier cycle of this sequence
+        if case.get("_kopf_lhc"):      # (the real producer: diffbase_storage.store of the real essence); else: never handled yet
+            ann[LHC_KEY], followed_old = case["_kopf_lhc"]
+    elif step["stored"] not in (NOOLD, "SAME"):
         ann["kopf.zalando.org/last-handled-configuration"] = json.dumps({"spec": spec_of(step["stored"])}) + "\n"
     # progress records on the object when the event arrives: given, or what kopf itself wrote before (`follow`)
     pstorage = settings.persistence.progress_storage
@@ -3386,7 +3502,11 @@ async def _one_cycle(env: Env, rec: Rec, case: dict, k: int, step: dict, own_fin
         meta["finalizers"] = fins
     if step["marked"]:
         meta["deletionTimestamp"] = "2020-01-01T00:00:00Z"
-    body = {"apiVersion": "kopf.dev/v1", "kind": "KopfExample", "metadata": meta, "spec": spec_of(step["field"]), "status": {"s": "x"}}
+    status_ = {"s": "x"} if step.get("status") is None else json.loads(json.dumps(step["status"]))
+    body = {"apiVersion": "kopf.dev/v1", "kind": "KopfExample", "metadata": meta,
+            "spec": dict(spec_of(step["field"]), **(step.get("spec_extra") or {})), "status": status_}
+    if not status_ and not status_progress:
+        del body["status"]             # (an object that has no status at all)
     if status_progress:
         body["status"]["kopf"] = {"progress": status_progress}
     if step["stored"] == "SAME":      # the last-handled state is exactly the current essence (kopf's own builder)
@@ -3562,7 +3682,7 @@ async def _one_cycle(env: Env, rec: Rec, case: dict, k: int, step: dict, own_fin
     # the object must give the criteria the same values (the fields of the resource's handlers are part of it:
     # `get_extra_fields`, also outside spec -- "status.s")
     stored = step["stored"]
-    ind_old = None if stored == NOOLD else (body_before if stored == "SAME" else {"spec": spec_of(stored)})
+    ind_old = None if stored == NOOLD else (body_before if stored == "SAME" else followed_old if stored == "follow" else {"spec": spec_of(stored)})
     doc_sts = dict(sts)
     if cs.changing_cause is not None:
         doc_sts["changing"] = dict(sts["changing"], o=ind_old, n=body_before)
@@ -3743,6 +3863,12 @@ async def _one_cycle(env: Env, rec: Rec, case: dict, k: int, step: dict, own_fin
     # the own finalizer of the next event: what kopf itself queued now
     for f in impl["fins"]:
         own_fin = f == "fin+"
+    # the last-handled state of the next event (`stored: follow`): the annotation kopf itself wrote, and the object it was
+    # written for (the oracle's old values are THAT object's, not what the annotation says)
+    for a_ in obs["applied"]:
+        v_ = ((a_["patch"].get("metadata") or {}).get("annotations") or {}).get(LHC_KEY, MISSING)
+        if v_ is not MISSING:
+            case["_kopf_lhc"] = None if v_ is None else (v_, body_before)
     # the progress annotations of the next event (`records: follow`): what kopf itself wrote, cycle after cycle
     if step["event"] != "DELETED":
         keep = dict(case["_kopf_ann"]) if step.get("records") == "follow" else {}
@@ -4362,7 +4488,11 @@ def run(ctx: Ctx) -> None:
             await run_cycle_case(env, rec, random_leftover_sequence(rng), reqs, pending)
         for _ in range(ctx.budget(300, 4000)):
             await run_cycle_case(env, rec, random_subcycle_case(rng), reqs, pending)
-        for _ in range(ctx.budget(1300, 20000)):       # (1500 before the re-discovery histories came: the quick tier's wall is kept)
+        for case in related_fields_scenarios():
+            await run_cycle_case(env, rec, case, reqs, pending)
+        for _ in range(ctx.budget(120, 2000)):
+            await run_cycle_case(env, rec, random_related_fields_sequence(rng), reqs, pending)
+        for _ in range(ctx.budget(1050, 20000)):       # (1500 before the re-discovery histories, 1300 before the related-fields sequences came: the quick tier's wall is kept)
             await run_cycle_case(env, rec, random_cycle_case(rng), reqs, pending)
         # consecutive events on the same in-memory records with kopf's REAL daemon spawning/stopping
         for _ in range(ctx.budget(40, 600)):
@@ -4438,6 +4568,10 @@ def search(ctx: Ctx, broken: list) -> None:
                 await run_cycle_case(env, rec, random_leftover_sequence(rng), reqs, pending)
             for _ in range(3000):
                 await run_cycle_case(env, rec, random_subcycle_case(rng), reqs, pending)
+            for case in related_fields_scenarios():
+                await run_cycle_case(env, rec, case, reqs, pending)
+            for _ in range(1200):
+                await run_cycle_case(env, rec, random_related_fields_sequence(rng), reqs, pending)
             for _ in range(12000):
                 await run_cycle_case(env, rec, random_cycle_case(rng), reqs, pending)
             for _ in range(300):
